@@ -10,7 +10,7 @@ ID = 'C03'
 TITLE = 'llh2xyz / xyz2llh'
 LEVEL = 'exploration'
 RULE = ('geodetic inputs lat -90..90 (exactly 0, +-0.0, +-90, +-1e-12), lon -360..360, h -1e4..4e7 (uniform and log), shipped and '
-        'random ellipsoids, float and angle-object arguments, functional and CoordGeo/CoordCart API: llh2xyz against the closed '
+        'random ellipsoids (a 6.3e6..6.4e6 m, 1/f 150..400 only: flatter ellipsoids are not generated), float and angle-object arguments, functional and CoordGeo/CoordCart API: llh2xyz against the closed '
         'form (prime-vertical radius of that ellipsoid) within 1 um; Cartesian inputs generated from geodetic ones and directly in '
         'all octants with distance from the axis 1e-9..4e7 m: xyz2llh result mapped back by the closed form within 0.02 mm, '
         'longitude in [-180,180].  a surface point followed by points on the same geocentric ray at other heights; 3 % of the cases are preceded by calls the property does not speak about (latitudes beyond the poles, NaN, inf, strings, None, the geocentre): not judged, exceptions swallowed, the judged call after them must be as right as ever.  distinct = ellipsoid x |lat| class x height decade x axis-distance decade x argument type x api')
